@@ -52,15 +52,16 @@ Fixpoint dec_loop (v : variant) (peek : bool) (inp : list byte)
     end.
 
 (* position of flat index [i] inside the fragment list, following mpt_message_read:
-   (offset inside its fragment, bytes left in that fragment) *)
-Fixpoint locate (frags : list nat) (i : nat) : nat * nat :=
+   (address residue of the fragment's base, offset inside its fragment, bytes left in that
+   fragment); [res] = residues mod 16 of the fragment base addresses (missing = aligned) *)
+Fixpoint locate (frags res : list nat) (i : nat) : nat * nat * nat :=
   match frags with
-  | [] => (0, 0)
+  | [] => (0, 0, 0)
   | f :: rest =>
-    if i <? f then (i, f - i)
+    if i <? f then (hd 0 res, i, f - i)
     else match rest with
-         | [] => (f, 0)            (* at the very end: base + used, nothing left *)
-         | _ => locate rest (i - f)
+         | [] => (hd 0 res, f, 0)            (* at the very end: base + used, nothing left *)
+         | _ => locate rest (tl res) (i - f)
          end
   end.
 
@@ -76,7 +77,7 @@ Definition splice (buf : list byte) (at_ : nat) (d : list byte) : list byte :=
   firstn at_ buf ++ d ++ skipn (at_ + length d) buf.
 
 (* one call of the decoder with a source; [vis] = number of readable bytes *)
-Definition dec_regular (v : variant) (st : dstate) (buf : list byte) (frags : list nat) (peek : bool)
+Definition dec_regular_res (v : variant) (st : dstate) (buf : list byte) (frags res : list nat) (peek : bool)
   : dres * dstate * list byte :=
   let L := if peek then Nat.min (length buf) (hd 0 frags) else length buf in
   let mlen := dlen st in
@@ -95,8 +96,8 @@ Definition dec_regular (v : variant) (st : dstate) (buf : list byte) (frags : li
     (* align offset for target data *)
     match (if (mlen =? 0) && (dcode st =? 0) then
              if peek then None else
-             let '(off, rest) := locate (if peek then firstn 1 frags else frags) dl in
-             let post := align_post off rest proc in
+             let '(rs, off, rest) := locate (if peek then firstn 1 frags else frags) res dl in
+             let post := align_post (rs + off) rest proc in
              Some (dl + post, proc - post, mkd (dcode st) (dpos8 st) (dcurr st) (dl + post) (dlen st) (dmsg st))
            else Some (done, proc, st)) with
     | None => (DErr BadOperation, st, buf)
@@ -127,10 +128,12 @@ Definition dec_regular (v : variant) (st : dstate) (buf : list byte) (frags : li
     end
   end.
 
+Definition dec_regular v st buf frags peek := dec_regular_res v st buf frags [] peek.
+
 (* _decode_r: a zero inside the last block is the tail-inline encoding *)
-Definition dec_call (v : variant) (st : dstate) (buf : list byte) (frags : list nat) (peek : bool)
+Definition dec_call_res (v : variant) (st : dstate) (buf : list byte) (frags res : list nat) (peek : bool)
   : dres * dstate * list byte :=
-  let '(r, st', buf') := dec_regular v st buf frags peek in
+  let '(r, st', buf') := dec_regular_res v st buf frags res peek in
   if inl v then
     match r with
     | DErr MissingData =>
@@ -143,6 +146,8 @@ Definition dec_call (v : variant) (st : dstate) (buf : list byte) (frags : list 
     | _ => (r, st', buf')
     end
   else (r, st', buf').
+
+Definition dec_call v st buf frags peek := dec_call_res v st buf frags [] peek.
 
 (* MPT_cobs_max_dec *)
 Definition max_dec (v : variant) (c : nat) : nat := if zpe v then c * 2 else c - c / maxlen v.
